@@ -71,6 +71,13 @@ def cases(draw, tier):
             names = ["%s %d" % (n, i) for i, n in enumerate(names)]
     else:
         names = draw(gen.names_for(len(seqs)))
+    if draw(st.integers(0, 9)) == 0:
+        # FASTA headers longer than the 256-character name buffers of the block formats (those formats carry the first
+        # 255 characters; the rows must be unaffected)
+        k = draw(st.integers(0, len(names) - 1))
+        names[k] = (names[k] + "_" + "h" * 400)[:draw(st.sampled_from([256, 257, 262, 263, 270, 300, 322, 400]))]
+        if len(set(n[:255] for n in names)) != len(names):
+            names[k] = ("%d" % k + names[k])[:len(names[k])]
     cfg = {"type": draw(gen.types_for(ss["kind"])), "threads": draw(gen.threads)}
     cfg["gpo"], cfg["gpe"], cfg["tgpe"] = draw(gen.penalties())
     return {"names": names, "seqs": seqs, "cfg": cfg, "entry": entry, "kind": ss["kind"], "shape": ss["shape"],
@@ -141,6 +148,8 @@ def classes_of(case, rows):
         c.append("no_final_newline")
     if case.get("ingaps", "none") != "none" and case["entry"] != "arr":
         c.append("input_has_gap_chars=" + case["ingaps"])
+    if any(len(n) > 255 for n in case["names"]):
+        c.append("name>255")
     if any(" " in n or ":" in n for n in case["names"]):
         c.append("rich_names")
     return c
@@ -181,7 +190,8 @@ def check(case):
                         fn, fr = formats.parse_any(fmt, r["written"][fmt])
                     except formats.FormatError as e:
                         return engine.violation({"what": "written %s file does not parse" % fmt, "error": str(e)})
-                    bad = oracle.integrity(in_names, in_seqs, fn, fr)
+                    bad = oracle.integrity(in_names if fmt == "fasta" else [x[:255] for x in in_names], in_seqs,
+                                           fn if fmt == "fasta" else [x[:255] for x in fn], fr)
                     if bad:
                         return engine.violation({"what": "written %s file: %s" % (fmt, bad)})
             else:
@@ -196,6 +206,9 @@ def check(case):
                     out_names, rows = formats.parse_any(fmt, text)
                 except formats.FormatError as e:
                     return engine.violation({"what": "CLI %s output does not parse" % fmt, "error": str(e)})
+                if fmt != "fasta":
+                    out_names = [x[:255] for x in out_names]
+                    in_names = [x[:255] for x in in_names]
                 alnlen = None
     except kal.Failure as f:
         if f.ended.kind == "hang":
